@@ -365,7 +365,8 @@ pub fn codec_check(c: &CodecCase, ctx: &mut CaseCtx) -> Result<(), Fail> {
 /// A default-format snapshot file of `n` generated entries, and the content it holds.
 pub fn snapv3_bytes(bag: &Bag, n: u8, compressed: bool) -> (Vec<u8>, Vec<(String, nv_c20::canon::Canon)>) {
     let router = tensor_store::SlabRouter::new();
-    let mut cur = Cur::new(bag);
+    // one field per entry: the file bytes must not depend on hash-map iteration order
+    let mut cur = Cur::with_max_map(bag, 1);
     let mut want = Vec::new();
     for i in 0..n {
         let key = format!("k{i}");
@@ -650,9 +651,9 @@ pub fn wal_kind(k: u8) -> WalKind {
 }
 
 /// Write the entries of a case through the real writer; returns the canonical images expected back.
-pub fn wal_write(c: &WalCase, path: &std::path::Path) -> Result<Vec<nv_c20::canon::Canon>, String> {
+pub fn wal_write(c: &WalCase, path: &std::path::Path, max_map: usize) -> Result<Vec<nv_c20::canon::Canon>, String> {
     let kind = wal_kind(c.kind);
-    let mut cur = Cur::new(&c.bag);
+    let mut cur = Cur::with_max_map(&c.bag, max_map);
     let n = c.variants.len();
     let split = if n == 0 { 0 } else { pick(c.reopen_at, n + 1) };
     let expect;
@@ -715,7 +716,7 @@ pub fn wal_check(c: &WalCase, ctx: &mut CaseCtx) -> Result<(), Fail> {
     ctx.label(format!("wal:{}", kind.name()));
     let dir = nv_engine::scratch::Dir::new("c20wal");
     let path = dir.join("log.wal");
-    let expect = wal_write(c, &path).map_err(|e| Fail::new(format!("wal:{}:append-error", kind.name()), e))?;
+    let expect = wal_write(c, &path, 4).map_err(|e| Fail::new(format!("wal:{}:append-error", kind.name()), e))?;
     for (i, v) in c.variants.iter().enumerate() {
         let nv = match kind {
             WalKind::Store => build::STORE_WAL_VARIANTS,
@@ -797,8 +798,12 @@ pub fn frame_strategy(_t: Tier) -> BoxedStrategy<FrameCase> {
 }
 
 pub fn build_message(variant: u16, bag: &Bag) -> (&'static str, tensor_chain::network::Message, u32, u32) {
+    build_message_with(variant, bag, 4)
+}
+
+pub fn build_message_with(variant: u16, bag: &Bag, max_map: usize) -> (&'static str, tensor_chain::network::Message, u32, u32) {
     let (name, gen) = build::MESSAGE_GENERATORS[pick(variant, build::MESSAGE_GENERATORS.len())];
-    let mut cur = Cur::new(bag);
+    let mut cur = Cur::with_max_map(bag, max_map);
     let m = gen(&mut cur);
     (name, m, cur.some, cur.none)
 }
@@ -844,7 +849,14 @@ pub fn frame_check(c: &FrameCase, ctx: &mut CaseCtx) -> Result<(), Fail> {
     }
 
     let v = if c.v2 { "v2" } else { "v1" };
-    let lz4 = c.lz4 && c.v2;
+    // a message holding a hash map with several entries has no fixed encoding (iteration order
+    // differs per process): no compression and no tight limit for it, so that the outcome of the
+    // case does not depend on the order
+    let order_free = message_debug_comparable(&msg);
+    if !order_free {
+        ctx.label("msg:multi-entry-hash-map");
+    }
+    let lz4 = c.lz4 && c.v2 && order_free;
     let big = CodecCfg { v2: c.v2, lz4, min_size: usize::from(c.min_size), max_frame_length: 16 << 20 };
     let wire = match oracle::encode_frame(&big.build(), c.v2, &msg) {
         Ok(w) => w,
@@ -855,6 +867,7 @@ pub fn frame_check(c: &FrameCase, ctx: &mut CaseCtx) -> Result<(), Fail> {
     };
     let content_len = wire.len() - 4;
     let max = match c.limit {
+        _ if !order_free => 16usize << 20,
         Limit::Large => 16usize << 20,
         Limit::AroundSerialized(d) => (ser.len() as i64 + i64::from(d)).max(1) as usize,
         Limit::AroundWire(d) => (content_len as i64 + i64::from(d)).max(1) as usize,
